@@ -417,17 +417,10 @@ pub(crate) fn parse_unknown_ifdata(
                     // try again, looks like the number is a float instead
                     parser.undo_get_token();
                     if let Ok(floatnum) = parser.get_float(context) {
+                        // a float stays a float: it is written with a decimal point or an exponent, so it
+                        // is read as a float again (e.g. "1e3" is written as "1000.0")
                         let line_offset = parser.get_line_offset();
-                        let value = f64::from(floatnum);
-                        if value.fract() == 0.0
-                            && (f64::from(i32::MIN)..=f64::from(i32::MAX)).contains(&value)
-                        {
-                            // e.g. "1e3": this value is written as the integer "1000", so it is stored
-                            // as an integer. Otherwise the data would be different after write + reload
-                            items.push(GenericIfData::Long(line_offset, (value as i32, false)));
-                        } else {
-                            items.push(GenericIfData::Float(line_offset, floatnum));
-                        }
+                        items.push(GenericIfData::Float(line_offset, floatnum));
                     } else {
                         // the value does not fit into a 32-bit float, e.g. "1e300"
                         parser.undo_get_token();
